@@ -1303,7 +1303,17 @@ class BinaryOperator(SymbolicExpression, ABC):
         super().__post_init__()
         self.left, self.right = self._update_children_(self.left, self.right)
         combined_vars = self.left._unique_variables_.union(self.right._unique_variables_)
-        self._cache_.keys = [v.id_ for v in combined_vars.filter(lambda v: not isinstance(v.value, Literal))]
+        self._cache_.keys = ([v.id_ for v in combined_vars.filter(lambda v: not isinstance(v.value, Literal))]
+                             + self._flatten_ids_of_(self.left, self.right))
+
+    @staticmethod
+    def _flatten_ids_of_(*operands: SymbolicExpression) -> List[int]:
+        """
+        A flatten node binds one element per row like a variable does, results that depend on it have to be
+        cached per element.
+        """
+        return list(dict.fromkeys(node._id_ for operand in operands for node in operand._all_nodes_
+                                  if isinstance(node, Flatten)))
 
     def yield_final_output_from_cache(self, variables_sources, cache: Optional[IndexedCache] = None) \
             -> Iterable[Dict[int, HashedValue]]:
@@ -1581,7 +1591,7 @@ class LogicalOperator(BinaryOperator, ABC):
     def __post_init__(self):
         super().__post_init__()
         right_vars = self.right._unique_variables_.filter(lambda v: not isinstance(v, Literal))
-        self.right_cache.keys = [v.id_ for v in right_vars]
+        self.right_cache.keys = [v.id_ for v in right_vars] + self._flatten_ids_of_(self.right)
 
     @property
     def _name_(self):
